@@ -54,6 +54,17 @@ def rule_s2(chk: Check) -> None:
             if isinstance(st, ast.Assign) and len(st.targets) == 1 and isinstance(st.targets[0], ast.Name) and (dotted(st.value) or "").startswith("self."):
                 nm = st.targets[0].id
                 alias[nm] = "?" if nm in alias else dotted(st.value)
+        # parameters that every call site in the class binds to the same `self.X`
+        params = [p for p in fi.params if p != "self"]
+        for idx, pn in enumerate(params):
+            bound = set()
+            for other in ci.methods.values():
+                for c in calls(other.node):
+                    if dotted(c.func) == f"self.{fi.node.name}":
+                        a = c.args[idx] if idx < len(c.args) else next((k.value for k in c.keywords if k.arg == pn), None)
+                        bound.add(dotted(a) if a is not None else None)
+            if len(bound) == 1 and (next(iter(bound)) or "").startswith("self.") and pn not in alias:
+                alias[pn] = next(iter(bound))
 
         def canon(e, _alias=alias):
             d = dotted(e) or ""
